@@ -83,6 +83,8 @@ protected:
             {
                 rng.random_vec(f);
             }
+            // Norm of the candidate before it is orthogonalized against V
+            const RealScalar fnorm0 = m_op.norm(f);
             // f <- f - V * (V^H)Bf, so that f is orthogonal to V in B-norm
             m_op.adjoint_product(V, f, Vf);
             f.noalias() -= V * Vf;
@@ -109,7 +111,9 @@ protected:
 
             // If the condition is satisfied, simply return
             // Otherwise, go to the next iteration and try a new random vector
-            if (ortho_err < m_eps * fnorm)
+            // A candidate that (almost) entirely lies in the span of V leaves only rounding
+            // noise after the orthogonalization, which is not a usable direction either
+            if (ortho_err < m_eps * fnorm && fnorm > sqrt(m_eps) * fnorm0)
             {
                 SPECTRA_VERIF_FAC_POINT(verif::FacExpanded, V.data(), m_n, V.cols(), m_fac_H.data(), m_m, f.data(), &fnorm, &m_op);
                 return;
